@@ -62,6 +62,8 @@ def boolterm(x):
         raise Unsupported('truthiness of string-sorted term')
     if isinstance(x, (bool, int, Fraction)):
         return z3.BoolVal(bool(x))
+    if isinstance(x, z3.ExprRef):
+        return boolterm(SV(x))
     raise Unsupported(f'boolterm {x!r}')
 
 
